@@ -62,8 +62,10 @@ pub(crate) fn subsec_contract(t: &Time) -> u32 {
 pub(crate) fn as_core_duration_int(iv: crate::time::Interval) -> core::time::Duration {
     let n = iv.as_log_2();
     assert!(n >= -9 && n <= 30, "harness precondition: log interval within -9..=30");
+    // `Duration::new`, not `from_secs`: Kani 0.68 does not model the `Nanoseconds::ZERO` constant that `from_secs`
+    // and `Duration::ZERO` use (their sub-second field reads back as an arbitrary value)
     if n >= 0 {
-        core::time::Duration::from_secs(1u64 << n)
+        core::time::Duration::new(1u64 << n, 0)
     } else {
         core::time::Duration::from_nanos(1_000_000_000u64 >> (-n))
     }
@@ -92,7 +94,11 @@ fn stub_interval_matches_real() {
 /// duration between `d * floor(f)` and `d * (floor(f) + 1)` (+-1 ns), which contains the real result
 /// because the product is monotone in f. `c12_announce_duration_real` compares the real floating-point
 /// code against the same bounds on concrete inputs.
+pub(crate) static mut LAST_MUL_F: f64 = 0.0;
+pub(crate) static mut LAST_MUL_D: u128 = 0;
+
 pub(crate) fn mul_f64_contract(d: core::time::Duration, f: f64) -> core::time::Duration {
+    unsafe { LAST_MUL_F = f; LAST_MUL_D = d.as_nanos(); }
     assert!(f >= 0.0 && f < 1.0e6, "Duration::mul_f64: factor negative, NaN or absurdly large");
     let d_ns = d.as_nanos();
     assert!(d_ns < (1u128 << 40), "harness precondition: timer base interval below 2^40 ns");
